@@ -6,7 +6,6 @@
 package control
 
 import (
-	"runtime"
 	"sync"
 	"sync/atomic"
 	"time"
@@ -181,22 +180,20 @@ func (q *UdpTaskQueue) convoy() {
 				continue
 			}
 
-			// CAS refs to lock out new acquireQueue and avoid time.Sleep
-			if !q.refs.CompareAndSwap(0, -1000000) {
+			// Claim the queue (CAS refs 0 -> sentinel locks out new acquireQueue) and
+			// re-check emptiness while holding the enqueue lock: an EmitTask that
+			// acquired, enqueued and released between the lock-free check above and
+			// the claim would otherwise be lost, and the recycled channel would
+			// later run its task under another flow. Under the lock a producer has
+			// either finished enqueueing (seen here) or still holds a reference
+			// (the CAS fails), so a successful claim means the queue is empty.
+			q.enqueueMu.Lock()
+			if len(q.ch) > 0 || len(q.overflow) > 0 || !q.refs.CompareAndSwap(0, -1000000) {
+				q.enqueueMu.Unlock()
 				q.safeTimerReset(timer)
 				continue
 			}
-
-			// The claim succeeded at refs == 0: no EmitTask is in flight and none
-			// can start. A task enqueued between the emptiness check above and
-			// the claim is visible now, so re-check before discarding the queue;
-			// otherwise that task would be lost and the recycled channel would
-			// later run it under another flow.
-			if len(q.ch) > 0 || q.overflowLen.Load() > 0 {
-				q.refs.Store(0)
-				q.safeTimerReset(timer)
-				continue
-			}
+			q.enqueueMu.Unlock()
 
 			// Try to delete from pool using CAS-like semantics via sync.Map
 			if q.p.tryDeleteQueue(q.key, q) {
@@ -281,11 +278,8 @@ createNew:
 		for {
 			refs := q.refs.Load()
 			if refs < 0 {
-				// The convoy has claimed q for idle GC. It either removes q from
-				// the table or rolls the claim back (a task slipped in first), so
-				// q must not be replaced here: a second queue for the same key
-				// would run tasks concurrently with the ones still in q.
-				runtime.Gosched()
+				// Use CompareAndDelete to only delete if still the same draining queue
+				p.queues.CompareAndDelete(key, q)
 				goto createNew
 			}
 			if q.refs.CompareAndSwap(refs, refs+1) {
